@@ -1,4 +1,103 @@
-import AdfModel.Api
+/-
+  C18 — Bystander integrity at every interruption point.
+  Second sentence of the property ("within a bitmap update the on-disk bitmap-valid flag is cleared before the first
+  bitmap page is rewritten and set again only after the last"): proved here for the model of `adfUpdateBitmap`, for
+  every volume state, every bitmap table (any number of pages, any dirty set, any page pointers), every clock and
+  every fault schedule — hence for every prefix of its write sequence, i.e. every interruption point.
+  First sentence (each write lands on a free block, the object's own blocks, its directories' metadata or a sibling's
+  chain link): decided on the real code by classifying every device write of every operation against the
+  independent decoder's ownership map (tools/props/C18.py); the model is tied to those writes trace-exactly, but a
+  whole-filesystem ownership invariant is not proved in Lean.  (MANIFEST: partial.)
+-/
+import AdfProofs.BitmapOrder
 namespace Adf.C18
-theorem C18_placeholder : True := trivial
+open Adf
+
+/-- **write order of a bitmap update.**  `W` are the device writes the call appends, newest first.  Either it wrote
+    nothing, or its OLDEST write is the root block with `bmFlag = BM_INVALID`; if that write failed nothing follows;
+    otherwise there follow page writes, of which only the newest may have failed, and then at most one more write:
+    the root block with `bmFlag = BM_VALID`, which is only issued when every page write succeeded. -/
+theorem C18_bitmap_update_order (c : Cfg) (v : Nat) (s : St) :
+    Post AnyFault c (updateBitmap v) s (fun _ s' => ∃ W, writesOf s'.trace = W ++ writesOf s.trace ∧ BmOrder c v W) :=
+  updateBitmap_order c v s
+
+/-- the update never stops on a model fault: the statement above is about every run -/
+theorem C18_bitmap_update_total (c : Cfg) (v : Nat) (s : St) :
+    Post (fun _ => False) c (updateBitmap v) s (fun _ s' => ∃ W, writesOf s'.trace = W ++ writesOf s.trace ∧ BmOrder c v W) :=
+  updateBitmap_order c v s
+
+/-- the flag values are in the BYTES that reach the device (offset 4·78 of the sector image), not only in the struct -/
+theorem C18_flag_in_written_bytes {c : Cfg} {v flag : Nat} {e : Ev} (h : IsRootWr c v flag e) :
+    ∃ sec data st, e = Ev.wr (some v) sec 512 data st ∧ sec = vsect c v (c.vol v).rootBlock ∧ flagOfSector data = flag :=
+  h.flag_in_bytes
+
+/-- consequences spelled out (W newest first): the oldest write clears the flag, and if it failed it is the only one;
+    every write strictly between the oldest and the newest is a successful page write; the newest write (when there
+    are at least two) is either a page write, or the root write setting the flag — and then every earlier write
+    succeeded -/
+theorem C18_pages_between (c : Cfg) (v : Nat) (W : List Ev) (h : BmOrder c v W) (hne : W ≠ []) :
+    (∃ e0, W.getLast? = some e0 ∧ IsRootWr c v BM_INVALID e0 ∧ (e0.status ≠ 0 → W = [e0])) ∧
+    (∀ e ∈ (W.drop 1).dropLast, IsPageWr v e ∧ e.status = 0) ∧
+    (∀ e1, W.head? = some e1 → W.length ≥ 2 → IsPageWr v e1 ∨ (IsRootWr c v BM_VALID e1 ∧ ∀ e ∈ W.drop 1, e.status = 0)) := by
+  rcases h with h | ⟨e0, rest, hW, h0, hfail, pages, tail, hrest, hp, htl, hcase⟩
+  · exact absurd h hne
+  · refine ⟨⟨e0, by rw [hW]; simp, h0, fun hs => by rw [hW, hfail hs]; rfl⟩, ?_, ?_⟩
+    rotate_left
+    · intro e1 hhead hlen
+      rcases hcase with ht | ⟨e1', ht, hv, hall⟩
+      · subst ht
+        simp only [List.nil_append] at hrest
+        subst hrest
+        cases rest with
+        | nil => rw [hW] at hlen; simp at hlen
+        | cons a t =>
+          rw [hW] at hhead; simp at hhead; subst hhead
+          exact Or.inl (hp _ (by simp))
+      · subst ht
+        rw [hW, hrest] at hhead; simp at hhead; subst hhead
+        refine Or.inr ⟨hv, ?_⟩
+        intro e he
+        rw [hW, hrest] at he
+        simp at he
+        rcases he with he | he
+        · exact hall e he
+        · subst he
+          by_cases h0s : e.status = 0
+          · exact h0s
+          · have := hfail h0s; rw [hrest] at this; simp at this
+    intro e he
+    rcases hcase with ht | ⟨e1', ht, _, hall⟩
+    · -- no closing write was issued: then the newest write is a page (or W = [e0]); the hypothesis on the head
+      -- is only used to bound the range — every element strictly between is a successful page write anyway
+      subst ht
+      simp only [List.nil_append] at hrest
+      subst hrest
+      rw [hW] at he
+      have : (List.drop 1 (rest ++ [e0])).dropLast = rest.drop 1 := by
+        cases rest with
+        | nil => simp
+        | cons a t => simp [List.dropLast_concat]
+      rw [this] at he
+      have hmem : e ∈ rest := List.mem_of_mem_drop he
+      have : e ∈ rest.tail := by rw [← List.drop_one]; exact he
+      exact ⟨hp e hmem, htl e this⟩
+    · subst ht
+      rw [hW, hrest] at he
+      have : (List.drop 1 (([e1'] ++ pages) ++ [e0])).dropLast = pages := by
+        simp [List.dropLast_concat]
+      rw [this] at he
+      exact ⟨hp e he, hall e he⟩
+
+/-- non-vacuity: a sequence of the full shape (clear, one page, set) satisfies `BmOrder` -/
+example (c : Cfg) (v : Nat) (r : Blk) (hr : BlkWF r) (pg : Blk) :
+    BmOrder c v
+      [Ev.wr (some v) (vsect c v (c.vol v).rootBlock) 512 (rootImage (r.setW F_bmFlag BM_VALID)) 0,
+       Ev.wr (some v) 881 512 (bytesOfBlk (withSum pg 0)) 0,
+       Ev.wr (some v) (vsect c v (c.vol v).rootBlock) 512 (rootImage (r.setW F_bmFlag BM_INVALID)) 0] := by
+  refine Or.inr ⟨_, [_, _], rfl, ⟨_, 0, rfl, setW_wf _ _ _ hr, ?_⟩, fun h => absurd rfl h, [_], [_], rfl, ?_, by simp, Or.inr ⟨_, rfl, ⟨_, 0, rfl, setW_wf _ _ _ hr, ?_⟩, ?_⟩⟩
+  · exact Blk.w_setW_same _ _ _ (by rw [hr.1]; decide) (by decide)
+  · intro e he; simp at he; subst he; exact ⟨_, _, _, rfl⟩
+  · exact Blk.w_setW_same _ _ _ (by rw [hr.1]; decide) (by decide)
+  · intro e he; simp at he; subst he; rfl
+
 end Adf.C18
